@@ -56,6 +56,16 @@ def compute_embedding_grad_sample(
         grad_sample.scatter_add_(
             1, index, backprops.reshape(batch_size, -1, layer.embedding_dim)
         )
+        if layer.scale_grad_by_freq:
+            # the gradient of a row is divided by the number of times the sample uses it
+            flat_ids = activations.reshape(batch_size, -1)
+            counts = torch.zeros(
+                batch_size, layer.num_embeddings, device=layer.weight.device
+            )
+            counts.scatter_add_(
+                1, flat_ids, torch.ones_like(flat_ids, dtype=counts.dtype)
+            )
+            grad_sample = grad_sample / counts.clamp(min=1).unsqueeze(-1)
         torch.backends.cudnn.deterministic = saved
         if layer.padding_idx is not None:
             # nn.Embedding never updates the padding row: its gradient is zero
